@@ -19,7 +19,9 @@ CONSTANTS GenericNopadFix,   \* crypto.Encrypt/Decrypt dispatch the three *-NOPA
           PadBoundFix,       \* UnpadPKCS7 bounds the pad length by the block size (FALSE: by the message length)
           KidCacheFix,       \* FALSE: RSA public keys for verification are cached by key id (kid)
           SharedMacFix,      \* FALSE: one HMAC state per aescbcaead instance, shared by concurrent Seal/Open
-          PoolFix            \* FALSE: decryptSymmetricAEAD returns a plaintext that lives in a pooled scratch buffer
+          PoolFix,           \* FALSE: decryptSymmetricAEAD returns a plaintext that lives in a pooled scratch buffer
+          KwInPlaceFix,      \* FALSE: aeskw.Unwrap works in place on the caller's wrapped key
+          DstGrowFix         \* FALSE: aescbcaead grows dst with append(dst, make(..)...), zero-filling an overlapping input
 
 VARIABLES cs, c, i, pc
 vars == <<cs, c, i, pc>>
@@ -126,6 +128,7 @@ ImplStale(x) == IF x.mut = "otherkey" /\ Base(x.keyKind) = "rsa" THEN {"ok"} ELS
 
 Impl(x) ==
   CASE x.mut = "pad" -> ImplPad(x)
+    [] IsDst(x) /\ ~DstGrowFix /\ x.fn = "aescbcaead.Open" /\ x.dst \in {"overlap", "overlaproom"} -> {"error"}
     [] x.fn \in SymFns -> ImplSym(x)
     [] x.fn \in AsymFns -> ImplAsym(x)
     [] x.fn \in GenericFns -> ImplGeneric(x)
@@ -137,6 +140,7 @@ ImplRt(x, o) ==
   IF o = "ok" /\ ~KwLenFix /\ Dir(x.fn) = "enc" /\ x.inLen = 0 /\ x.alg \in KwNames /\ x.fn \in SymFns \cup GenericFns \cup KwFns
   THEN "no" ELSE "yes"
 
+LiveAgain(x) == IF ~KwInPlaceFix /\ Dir(x.fn) = "dec" /\ x.alg \in KwNames THEN "no" ELSE "yes"
 LiveSame(x) == IF ~SharedMacFix /\ x.conc > 1 /\ x.fn \in AeadFns THEN {"yes", "no"} ELSE {"yes"}
 LiveKept(x, k) == IF ~PoolFix /\ x.keep >= 1 /\ k >= 1 /\ x.fn \in {"Decrypt", "DecryptSymmetric"}
                      /\ Row(x.alg).fam \in {"gcm", "cbchmac"} THEN "no" ELSE "yes"
@@ -153,7 +157,7 @@ Call ==
   /\ IF IsLive(cs)
      THEN \E o \in Impl(cs), sm \in LiveSame(cs) :
             c' = CNext(c, [ev |-> "call", idx |-> 0, w |-> 0, i |-> i, outcome |-> o, rt |-> "yes", ref |-> "yes", noout |-> "yes",
-                           same |-> sm, kept |-> LiveKept(cs, i)])
+                           same |-> sm, kept |-> LiveKept(cs, i), again |-> LiveAgain(cs)])
      ELSE \E o \in (IF StaleRSA(cs, i) THEN ImplStale(cs) ELSE Impl(cs)) :
             c' = CNext(c, [ev |-> "call", idx |-> i, outcome |-> o, rt |-> ImplRt(cs, o), ref |-> "yes", noout |-> "yes"])
   /\ i' = i + 1
